@@ -311,6 +311,13 @@ cases = json.loads(sys.argv[2])
 out = []
 import builtins
 builtins.CANARY = []
+# an importable user package next to the script: importing it (or merely resolving a dotted name through it) runs its __init__ on the host
+import tempfile, os as _os
+_pkgroot = tempfile.mkdtemp(prefix="c11-canary-")
+_os.makedirs(_os.path.join(_pkgroot, "c11_canary_pkg"))
+open(_os.path.join(_pkgroot, "c11_canary_pkg", "__init__.py"), "w").write("import builtins\nbuiltins.CANARY.append('package __init__ executed')\n")
+open(_os.path.join(_pkgroot, "c11_canary_pkg", "patterns.py"), "w").write("import builtins\nbuiltins.CANARY.append('module executed')\nx = [1, 0, 1]\n")
+sys.path.insert(0, _pkgroot)
 import os, warnings, decimal, locale, signal, gc
 def snapshot():
     return {"recursionlimit": sys.getrecursionlimit(), "cwd": os.getcwd(), "environ": dict(os.environ), "sys.path": list(sys.path),
@@ -324,8 +331,10 @@ for name, src in cases:
     armed[0] = True
     t0 = time.time()
     try:
-        E.emit(P.parse(src))
+        cpp = E.emit(P.parse(src))
         res = "ok"
+        if len(cpp) > 400 * len(src) + 200000:
+            res = "CRASH:output of %d characters for a source of %d characters (the emitted text grows faster than the source)" % (len(cpp), len(src))
     except (ValueError, SyntaxError) as ex:
         res = "clean:" + type(ex).__name__
     except BaseException as ex:
@@ -337,6 +346,8 @@ for name, src in cases:
         res = "CRASH:interpreter state changed by parse(): " + ", ".join(f"{k}: {str(before[k])[:40]} -> {str(after[k])[:40]}" for k in changed[:3])
         sys.setrecursionlimit(before["recursionlimit"])
     out.append({"case": name, "result": res, "events": list(events), "canary": list(builtins.CANARY), "ms": int((time.time() - t0) * 1000)})
+import shutil
+shutil.rmtree(_pkgroot, ignore_errors=True)
 print(json.dumps(out))
 '''
 
@@ -391,6 +402,13 @@ def hostile_cases():
               ("mutual-recursion-int-then-float", "def a(x):\n    if x < 1:\n        return 0\n    return b(x - 1)\ndef b(x):\n    if x < 1:\n        return 1\n    return a(x - 1)\nr = a(4)\ns = a(2.5)\n"),
               ("self-recursion-two-argument-types", "def f(x):\n    if x < 1:\n        return 0\n    return f(x / 2) + f(int(x) - 1)\nr = f(5)\n"),
               ("three-cycle", "def p(x):\n    return q(x)\ndef q(x):\n    return r3(x * 1.5)\ndef r3(x):\n    if x > 100:\n        return x\n    return p(x + 1)\nv = p(1)\n"),
+              ("import-from-user-package", "from c11_canary_pkg.patterns import x\nfrom Reduino.Actuators import Led\nled = Led(13)\nled.on()\n"),
+              ("import-dotted-user-module", "import c11_canary_pkg.patterns\ny = 1\n"), ("import-user-package", "import c11_canary_pkg\ny = 1\n"),
+              ("import-user-package-as", "from c11_canary_pkg import patterns as p\ny = 1\n"), ("import-inside-function", "def f():\n    import c11_canary_pkg.patterns\n    return 1\ny = f()\n"),
+              ("import-stdlib-dotted", "import wsgiref.util\nimport xml.dom.minidom\ny = 1\n"), ("import-relative", "from . import c11_canary_pkg\ny = 1\n"),
+              ("self-call-with-growing-list-type", "def f(a):\n    return f([a])\nx = f(1)\n"),
+              ("self-call-with-growing-list-type-two-helpers", "def f(a):\n    return g([a])\ndef g(b):\n    return f([b])\nx = f(1)\n"),
+              ("self-call-with-growing-list-type-in-branch", "def f(a, n):\n    if n > 0:\n        return f([a], n - 1)\n    return 0\nx = f(1, 3)\n"),
               ("break-at-top-level", "x = 1\nbreak\n"), ("default-argument", "def f(a=1):\n    return a\ny = f()\n"), ("unknown-melody", "from Reduino.Actuators import Buzzer\nb = Buzzer(8)\nb.melody('nope')\n"),
               ("fstring-format-spec", "from Reduino.Communication import SerialMonitor\nm = SerialMonitor(9600)\nx = 1.5\nm.write(f'{x:.1f}')\n"),
               ("long-chained-condition", "x = 1\nif " + " and ".join(["x > 0"] * 300) + ":\n    x = 2\n")]
@@ -450,6 +468,24 @@ def hostile_replay(tier, out):
     for a, b in (("'ab'", "10**10"), ("10**10", "'ab'"), ("[0]", "10**10"), ("10**10", "[0, 1]"), ("'ab' * 10**5", "10**6")):
         big.append((f"repeat {a}*{b}", f"x = {a} * {b}\n"))
     big.append(("factorial-like", "x = " + " * ".join(["10**300"] * 60) + "\n"))
+    # growth that compounds from statement to statement / level to level (each step is small, the sequence is exponential)
+    big.append(("repeated-squaring-40", "a = 2**2000\n" + "a = a*a\n" * 40))
+    big.append(("repeated-squaring-in-loop-body", "a = 3**2500\nwhile True:\n" + "    a = a*a\n" * 40))
+    big.append(("product-towers", "a = 3**2500\n" + "".join(f"{chr(98 + k)} = " + "*".join([chr(97 + k)] * 8) + "\n" for k in range(8))))
+    big.append(("repeated-shift", "a = 1 << 4000\n" + "a = a << 4000\n" * 60 + "b = a * a\nc = b * b\nd = c * c\n"))
+    big.append(("string-doubling", "s = 'ab'\n" + "s = s + s\n" * 40))
+    big.append(("fstring-doubling", "s = 'ab'\n" + "s = f'{s}{s}'\n" * 40))
+    for depth in (14, 40):
+        e_const, e_var, e_call = "2", "k", "m(k)"
+        for _ in range(depth):
+            e_const, e_var, e_call = f"1 < ({e_const}) < 3", f"1 < ({e_var}) < 3", f"1 < ({e_call}) < 3"
+        big.append((f"nested-chained-comparison-constants-{depth}", f"x = {e_const}\n"))
+        big.append((f"nested-chained-comparison-variable-{depth}", f"k = 2\nwhile True:\n    x = {e_var}\n    k = k + 1\n"))
+        big.append((f"nested-chained-comparison-call-{depth}", f"def m(v):\n    return v\nk = 2\nwhile True:\n    x = {e_call}\n    k = k + 1\n"))
+    e_chain = "k"
+    for _ in range(12):
+        e_chain = f"0 <= {e_chain} + 1 <= 9"
+    big.append(("chained-comparison-of-chained-comparisons-12", f"k = 2\nx = {e_chain}\n"))
     # header / call regexes must not backtrack exponentially: long identifiers followed by text that makes the header not match
     L = "averyveryverylongidentifiername" * 2
     for k, text in enumerate([
